@@ -63,6 +63,7 @@ pub fn a14_udp6() {
 
 /// a port getter reads only its own key
 #[cfg_attr(kani, kani::proof)]
+#[cfg_attr(kani, kani::stub(<[u8]>::to_vec, to_vec_stub))]
 pub fn a14_port_isolation() {
     let (raw, n) = any_item::<4>();
     let mut m: Map = BTreeMap::new();
@@ -77,6 +78,7 @@ pub fn a14_port_isolation() {
 }
 
 #[cfg_attr(kani, kani::proof)]
+#[cfg_attr(kani, kani::stub(<[u8]>::to_vec, to_vec_stub))]
 pub fn a14_ip4() {
     let (raw, n) = any_item::<6>();
     let mut m: Map = BTreeMap::new();
@@ -91,6 +93,7 @@ pub fn a14_ip4() {
 }
 
 #[cfg_attr(kani, kani::proof)]
+#[cfg_attr(kani, kani::stub(<[u8]>::to_vec, to_vec_stub))]
 pub fn a14_ip6() {
     let (raw, n) = any_item::<18>();
     let mut m: Map = BTreeMap::new();
@@ -107,6 +110,7 @@ pub fn a14_ip6() {
 /// id(): Some(text) exactly when the raw value is a byte string (ASCII payloads of <= 3 bytes)
 #[cfg_attr(kani, kani::proof)]
 #[cfg_attr(kani, kani::stub(std::string::String::from_utf8_lossy, lossy_stub))]
+#[cfg_attr(kani, kani::stub(<[u8]>::to_vec, to_vec_stub))]
 pub fn a14_id() {
     let (raw, n) = any_item::<4>();
     let mut m: Map = BTreeMap::new();
@@ -209,32 +213,39 @@ fn sockets_body(p: [u8; 6]) {
 
 /// all 64 presence combinations at once (symbolic key bytes: thorough tier)
 #[cfg_attr(kani, kani::proof)]
+#[cfg_attr(kani, kani::stub(<[u8]>::to_vec, to_vec_stub))]
 pub fn a14_sockets() {
     sockets_body(sym::bytes::<6>())
 }
 /// concrete presence sets (quick tier): all six keys, IPv4 family only, IPv6 family only,
 /// addresses without ports, ports without addresses, crossed families
 #[cfg_attr(kani, kani::proof)]
+#[cfg_attr(kani, kani::stub(<[u8]>::to_vec, to_vec_stub))]
 pub fn a14_sock_all() {
     sockets_body([1, 1, 1, 1, 1, 1])
 }
 #[cfg_attr(kani, kani::proof)]
+#[cfg_attr(kani, kani::stub(<[u8]>::to_vec, to_vec_stub))]
 pub fn a14_sock_v4() {
     sockets_body([1, 0, 1, 0, 1, 0])
 }
 #[cfg_attr(kani, kani::proof)]
+#[cfg_attr(kani, kani::stub(<[u8]>::to_vec, to_vec_stub))]
 pub fn a14_sock_v6() {
     sockets_body([0, 1, 0, 1, 0, 1])
 }
 #[cfg_attr(kani, kani::proof)]
+#[cfg_attr(kani, kani::stub(<[u8]>::to_vec, to_vec_stub))]
 pub fn a14_sock_ips() {
     sockets_body([1, 1, 0, 0, 0, 0])
 }
 #[cfg_attr(kani, kani::proof)]
+#[cfg_attr(kani, kani::stub(<[u8]>::to_vec, to_vec_stub))]
 pub fn a14_sock_ports() {
     sockets_body([0, 0, 1, 1, 1, 1])
 }
 #[cfg_attr(kani, kani::proof)]
+#[cfg_attr(kani, kani::stub(<[u8]>::to_vec, to_vec_stub))]
 pub fn a14_sock_cross() {
     sockets_body([1, 0, 0, 1, 0, 1])
 }
